@@ -5,6 +5,7 @@ to xs:double, select an item such that no other item is greater").  The specific
 readings agree when the promotion is monotone on the input (`promotionMonotoneOn`).
 -/
 import EPV.Lemmas.SeqFunsAgg
+import EPV.Lemmas.SeqFunsRnd
 namespace EPV.Seq
 open EPV.Seq.Spec
 
@@ -222,5 +223,141 @@ theorem promotionMonotoneOn_of_exact (s : Seq) (h : s.all exactlyPromotable = tr
   have ey := toDouble_val_of_exact y (List.all_eq_true.mp h y hy)
   simp only [D.lt, ex, ey]
   cases XV.lt (exact x) (exact y) <;> rfl
+
+/-! ### the hypothesis holds for every sequence of real xs:double values: `rnd` is monotone -/
+
+/-- the exact value of a numeric item as a fraction (`none`: NaN, ±INF, or not a number) -/
+def ratOf : Atom → Option (Int × Nat)
+  | .int n => some (n, 1)
+  | .dec m k => some (m, 10 ^ k)
+  | .dbl (.fin m k) => some (m, 2 ^ k)
+  | .dbl .nzero => some (0, 1)
+  | _ => none
+
+theorem ofInt_large (n : Int) (h : ¬ n.natAbs ≤ 2 ^ 53) : D.ofInt n = rnd n 1 := by
+  unfold D.ofInt
+  simp only [h, if_false]
+  rcases rnd_large_shape n (by omega) with e | e | ⟨M, e⟩ <;> rw [e] <;> rfl
+
+theorem small_int_range (n : Int) (h : n.natAbs ≤ 2 ^ 53) :
+    -(big : Int) < n * ((2 ^ 1074 : Nat) : Int) ∧ n * ((2 ^ 1074 : Nat) : Int) < (big : Int) := by
+  have hb : n.natAbs * 2 ^ 1074 < big := by
+    unfold big
+    calc n.natAbs * 2 ^ 1074 ≤ 2 ^ 53 * 2 ^ 1074 := Nat.mul_le_mul_right _ h
+      _ = 2 ^ 1127 := by rw [← Nat.pow_add]
+      _ < 2 ^ 2098 := Nat.pow_lt_pow_right (by decide) (by decide)
+  have hb' : ((n.natAbs * 2 ^ 1074 : Nat) : Int) < (big : Int) := Int.ofNat_lt.mpr hb
+  rw [Int.natCast_mul] at hb'
+  have hK : (0 : Int) < ((2 ^ 1074 : Nat) : Int) := Int.natCast_pos.mpr (two_pow_pos _)
+  generalize ((2 ^ 1074 : Nat) : Int) = K at *
+  have hnn : (0 : Int) ≤ (n.natAbs : Int) * K := Int.mul_nonneg (Int.natCast_nonneg _) (Int.le_of_lt hK)
+  by_cases hneg : n < 0
+  · have e : n = -(n.natAbs : Int) := by omega
+    rw [e, Int.neg_mul]
+    constructor <;> omega
+  · have e : n = (n.natAbs : Int) := by omega
+    rw [e]
+    constructor <;> omega
+
+/-- a numeric item with a finite value: its exact value is `n / d` and its promotion has the scaled
+value that `rnd` gives to `n / d` -/
+theorem ratOf_spec (a : Atom) (n : Int) (d : Nat) (hr : ratOf a = some (n, d)) (hg : goodItem a = true) :
+    0 < d ∧ exact a = .q n d ∧ HasS (toDouble a).val (sS n d) := by
+  cases a with
+  | int x =>
+    simp only [ratOf, Option.some.injEq, Prod.mk.injEq] at hr
+    obtain ⟨rfl, rfl⟩ := hr
+    refine ⟨by decide, rfl, ?_⟩
+    by_cases hs : x.natAbs ≤ 2 ^ 53
+    · have e : toDouble (.int x) = .fin x 0 := by simp [toDouble, D.ofInt, hs]
+      rw [e, sS_small_int x hs]
+      obtain ⟨r1, r2⟩ := small_int_range x hs
+      exact Or.inr (Or.inr ⟨r1, r2, x, 2 ^ 0, two_pow_pos 0, rfl, by simp⟩)
+    · have e : toDouble (.int x) = rnd x 1 := ofInt_large x hs
+      rw [e]; exact rnd_hasS x 1 (by decide)
+  | dec m k =>
+    simp only [ratOf, Option.some.injEq, Prod.mk.injEq] at hr
+    obtain ⟨rfl, rfl⟩ := hr
+    exact ⟨Nat.pow_pos (by decide), rfl, rnd_hasS m (10 ^ k) (Nat.pow_pos (by decide))⟩
+  | dbl dd =>
+    cases dd with
+    | fin m k =>
+      simp only [ratOf, Option.some.injEq, Prod.mk.injEq] at hr
+      obtain ⟨rfl, rfl⟩ := hr
+      exact ⟨two_pow_pos k, rfl, isRep_hasS m k hg⟩
+    | nzero =>
+      simp only [ratOf, Option.some.injEq, Prod.mk.injEq] at hr
+      obtain ⟨rfl, rfl⟩ := hr
+      refine ⟨by decide, rfl, ?_⟩
+      have h0 : sS 0 1 = 0 := by simp [sS]
+      rw [h0]
+      have bp := bigpos
+      exact Or.inr (Or.inr ⟨by omega, bp, 0, 1, by decide, rfl, by simp⟩)
+    | _ => simp [ratOf] at hr
+  | _ => simp [ratOf] at hr
+
+/-- the other items: NaN, ±INF or not a number -/
+theorem ratOf_none (a : Atom) (hr : ratOf a = none) :
+    toDouble a = .nan ∨ (a = .dbl .pinf) ∨ (a = .dbl .ninf) := by
+  cases a with
+  | dbl dd => cases dd <;> simp_all [ratOf, toDouble]
+  | int _ => simp [ratOf] at hr
+  | dec _ _ => simp [ratOf] at hr
+  | _ => left; rfl
+
+theorem XV.lt_nan_left (x : XV) : XV.lt .nan x = false := by cases x <;> rfl
+theorem XV.lt_nan_right (x : XV) : XV.lt x .nan = false := by cases x <;> rfl
+
+/-- **the promotion to xs:double preserves the order** of any two items whose doubles are binary64
+values: if the promoted `x` is below the promoted `y` then the exact `x` is below the exact `y` -/
+theorem promotion_mono_pair (x y : Atom) (gx : goodItem x = true) (gy : goodItem y = true)
+    (h : D.lt (toDouble x) (toDouble y) = true) : XV.lt (exact x) (exact y) = true := by
+  unfold D.lt at h
+  cases hx : ratOf x with
+  | none =>
+    rcases ratOf_none x hx with e | rfl | rfl
+    · rw [e] at h; simp [D.val, XV.lt_nan_left] at h
+    · simp [toDouble, D.val, XV.lt_pinf_left] at h
+    · -- x = -INF: everything that is not -INF or NaN is above it
+      cases hy : ratOf y with
+      | none =>
+        rcases ratOf_none y hy with e | rfl | rfl
+        · rw [e] at h; simp [D.val, XV.lt_nan_right] at h
+        · rfl
+        · simp [toDouble, D.val, XV.lt] at h
+      | some nd =>
+        obtain ⟨_, ey, _⟩ := ratOf_spec y nd.1 nd.2 hy gy
+        rw [ey]; rfl
+  | some nd =>
+    obtain ⟨dx, ex, sx⟩ := ratOf_spec x nd.1 nd.2 hx gx
+    cases hy : ratOf y with
+    | none =>
+      rcases ratOf_none y hy with e | rfl | rfl
+      · rw [e] at h; simp [D.val, XV.lt_nan_right] at h
+      · rw [ex]; rfl
+      · simp [toDouble, D.val, XV.lt_ninf_right] at h
+    | some md =>
+      obtain ⟨dy, ey, sy⟩ := ratOf_spec y md.1 md.2 hy gy
+      rw [ex, ey]
+      -- otherwise y ≤ x exactly, hence the promoted y is not above the promoted x
+      apply Classical.byContradiction
+      intro hn
+      have hle : md.1 * (nd.2 : Int) ≤ nd.1 * (md.2 : Int) := by
+        simp only [XV.lt, decide_eq_true_eq] at hn
+        omega
+      have := hasS_le _ _ _ _ sy sx (sS_mono md.1 nd.1 md.2 nd.2 dy dx hle)
+      rw [this] at h
+      cases h
+
+/-- for every sequence whose doubles are binary64 values the promotion is monotone -/
+theorem promotionMonotoneOn_of_good (s : Seq) (hg : s.all goodItem = true) : promotionMonotoneOn s = true := by
+  unfold promotionMonotoneOn
+  rw [List.all_eq_true]; intro x hx
+  rw [List.all_eq_true]; intro y hy
+  have gx := List.all_eq_true.mp hg x hx
+  have gy := List.all_eq_true.mp hg y hy
+  cases hlt : D.lt (toDouble x) (toDouble y) with
+  | false => rfl
+  | true => simp [promotion_mono_pair x y gx gy hlt]
 
 end EPV.Seq
